@@ -294,7 +294,6 @@ fn main() {
       "parse" => mode_parse::mode_parse(&j),
       "doc" => mode_doc::mode_doc(&j),
       "format" => mode_format::mode_format(&j),
-      "format-json" => mode_format::dbg_json(j["src"].as_str().unwrap_or("")),
       _ => "(badmode)".to_string(),
     };
     writeln!(out, "{}\t{}", id, r).ok();
